@@ -75,6 +75,8 @@ pub static FREE_RUN: std::sync::atomic::AtomicUsize = std::sync::atomic::AtomicU
 pub static FREE_UNTIL: Mutex<Option<std::time::Instant>> = Mutex::new(None);
 /// `reenter k`: the k-th call of the wrapped iterator's `next()` queries the concurrent iterator that wraps it
 pub static REENTER_AT: std::sync::atomic::AtomicUsize = std::sync::atomic::AtomicUsize::new(usize::MAX);
+/// `reenter k skip`: … and then calls `skip_to_end` on it
+pub static REENTER_SKIP: std::sync::atomic::AtomicBool = std::sync::atomic::AtomicBool::new(false);
 static REENTER_FN: Mutex<Option<(usize, fn(usize))>> = Mutex::new(None);
 
 pub fn set_reenter(at: Option<usize>, data: usize, f: fn(usize)) {
